@@ -115,6 +115,10 @@ func (c *reconnectClient) Connect(ctx context.Context, clientID string, opts ...
 								c.options.PingInterval,
 								c.options.Timeout,
 							); err != nil {
+								if ctxKeepAlive.Err() != nil {
+									// Keep alive was stopped; the connection has already ended.
+									return
+								}
 								baseCli.SetErrorOnce(err)
 								// The client should close the connection if PINGRESP is not returned.
 								// MQTT 3.1.1 spec. 3.1.2.10
